@@ -304,6 +304,7 @@ type simGR struct {
 	Families     []uint32 `json:"families"` // family<<1|forwarding
 	LLGR         []uint32 `json:"llgr"`     // family (time taken from LLGRTime)
 	LLGRTime     uint32   `json:"llgr_time"`
+	LLGRTimes    []uint32 `json:"llgr_times,omitempty"` // optional, parallel to LLGR: a long-lived time per family (0 = LLGRTime)
 }
 
 func (p *simPeerDef) open(spec simOpenSpec) *bgp.BGPMessage {
@@ -343,8 +344,12 @@ func (p *simPeerDef) open(spec simOpenSpec) *bgp.BGPMessage {
 		caps = append(caps, bgp.NewCapGracefulRestart(spec.GR.Restarting, spec.GR.Notification, spec.GR.Time, ts))
 		if len(spec.GR.LLGR) > 0 {
 			var lt []*bgp.CapLongLivedGracefulRestartTuple
-			for _, v := range spec.GR.LLGR {
-				lt = append(lt, bgp.NewCapLongLivedGracefulRestartTuple(bgp.Family(v), true, spec.GR.LLGRTime))
+			for i, v := range spec.GR.LLGR {
+				tm := spec.GR.LLGRTime
+				if i < len(spec.GR.LLGRTimes) && spec.GR.LLGRTimes[i] != 0 {
+					tm = spec.GR.LLGRTimes[i]
+				}
+				lt = append(lt, bgp.NewCapLongLivedGracefulRestartTuple(bgp.Family(v), true, tm))
 			}
 			caps = append(caps, bgp.NewCapLongLivedGracefulRestart(lt))
 		}
